@@ -240,8 +240,12 @@ func (b *tableParagraphTransformer) parseRow(segment text.Segment,
 		row.AppendChild(row, node)
 		pos = closure + 1
 	}
-	for ; i < len(alignments); i++ {
-		row.AppendChild(row, ast.NewTableCell())
+	if !isHeader {
+		// only body rows are padded: a header row must match the
+		// delimiter row by itself
+		for ; i < len(alignments); i++ {
+			row.AppendChild(row, ast.NewTableCell())
+		}
 	}
 	return row
 }
